@@ -140,4 +140,19 @@ TEXT = {
         "note": COMMON_NOTE,
         "technique": "Lean 4 proof composing the parser (C04/C05) and distance (C02) theorems + differential replay",
     },
+    "C12": {
+        "level": "Proof: for every reader script within the Read contract (any partial-read sizes up to the 1 MiB "
+                 "buffer, any number of ErrorKind::Interrupted, unbounded total size), valid variant and "
+                 "configuration: hash_stream = reference hash (or generator error) of the concatenation of the "
+                 "delivered bytes; the first hard error is returned as IOError and no hash is produced "
+                 "(stream_eq_spec, hard_error_wins, composed from update_ideal and the C01 refinement); the "
+                 "translator extracts from the source that interrupted reads are retried "
+                 "(source_retries_interrupted) — on the pinned tree this obligation failed and the check produced "
+                 "the replay [Interrupted, deliver..]; fixed in /repo e3be62e. The counterexample for the old code "
+                 "is kept as a theorem. Correspondence: scripted readers incl. >1 MiB, real files of 0/<1MiB/"
+                 "=1MiB/>1MiB, missing path.",
+        "note": COMMON_NOTE + " File::open/read are the OS; readers are scripts.",
+        "technique": "Lean 4 proof (read loop refines the script spec, via update_ideal + C01) + scripted-reader "
+                     "differential replay",
+    },
 }
